@@ -5,6 +5,7 @@ import (
 	"encoding/json"
 	"errors"
 	"fmt"
+	"net/http/httptest"
 	"path/filepath"
 	"reflect"
 	"regexp"
@@ -167,6 +168,7 @@ type world struct {
 	ro    *roProvider // failmod part, runtime only
 	roPsh runtime.PushFunc
 	veto  *vetoHook // failmod part
+	srv   *httptest.Server // ws part: the api package's main handler
 
 	toks     map[string]*version
 	nextCell int
@@ -178,7 +180,12 @@ var tokRe = regexp.MustCompile(`tk[0-9a-f]{20}kt`)
 func newWorld(dir string, sp spec, b *vlib.Batch) (*world, error) {
 	w := &world{sp: sp, b: b, backend: sp.Backend, toks: map[string]*version{}}
 	w.rng = vlib.NewRand(sp.Seed, prop+"/"+sp.name(), uint64(sp.Shard))
-	if err := database.InitializeWithPath(filepath.Join(dir, "dbroot")); err != nil {
+	if sp.Part == "ws" {
+		// the module system (database, config, api) initialises the database
+		if err := w.startAPIWorld(dir); err != nil {
+			return nil, err
+		}
+	} else if err := database.InitializeWithPath(filepath.Join(dir, "dbroot")); err != nil {
 		return nil, err
 	}
 	w.db = "c03" + sp.Backend
@@ -293,6 +300,30 @@ func (w *world) privPut(key string, flags int, how, kind string) (tok string, er
 	switch how {
 	case "opts":
 		err = w.Wf[flags].Put(r)
+	case "putnew-opts":
+		err = w.Wf[flags].PutNew(r)
+	case "putnew-meta", "putnew-reload":
+		// a pre-flagged record saved as new by a privileged interface; "reload":
+		// a stored flagged record is loaded and saved as new again
+		r.CreateMeta()
+		if flags&flagSecret != 0 {
+			r.Meta().MakeSecret()
+		}
+		if flags&flagCrown != 0 {
+			r.Meta().MakeCrownJewel()
+		}
+		if how == "putnew-meta" {
+			err = w.W.PutNew(r)
+			return
+		}
+		if err = w.W.Put(r); err != nil {
+			return
+		}
+		var lr record.Record
+		if lr, err = w.W.Get(key); err != nil {
+			return
+		}
+		err = w.W.PutNew(lr)
 	case "call":
 		// the record is unflagged for a moment; nobody observes in between
 		if err = w.W.Put(r); err != nil {
